@@ -213,7 +213,15 @@ def format_code(
         minimum_indent = 0
     else:
         minimum_indent = formatting.indentation_level(source)
-        source = textwrap.dedent(source)
+        dedented_source = textwrap.dedent(source)
+        # The indentation is put back in the end. Whitespace-only lines are emptied on the way out
+        # and stay empty on the way back, those of string literals as well.
+        if not core.keeps_syntax_tree(
+            source, textwrap.indent(dedented_source, " " * minimum_indent)
+        ):
+            return unformatted_source
+
+        source = dedented_source
 
     if not core.is_valid_python(source):
         logger.debug("Result is not valid python.")
